@@ -200,23 +200,41 @@ def run_case(case, rng):
                     viol.append((f"partial_transpose:{meth}", f"partial_transpose method={meth} differs (dims={dims}, mask={mask})"))
             except Exception:
                 pass
-    # --- reshuffle: tensor of superoperators <-> superoperator of the tensor
-    if k >= 2 and n <= 12 and dims[0] > 1 and dims[1] > 1:      # superoperators over a 1-dimensional space are rejected by the library
-        sups = [qutip.sprepost(qutip.Qobj(ident_matrix(d, rng)), qutip.Qobj(ident_matrix(d, rng).T + 1)) for d in dims[:2]]
+    # --- reshuffle: tensor of superoperators <-> superoperator of the tensor; the factors may act on
+    #     composite spaces themselves (split the dims list in two groups)
+    nontriv = [d for d in dims if d > 1]
+    if len(nontriv) >= 2 and int(np.prod(nontriv)) <= 12:
+        cut = int(rng.integers(1, len(nontriv)))
+        groups = [nontriv[:cut], nontriv[cut:]]
+        sups = []
+        for g in groups:
+            dg = int(np.prod(g))
+            sups.append(qutip.sprepost(qutip.Qobj(ident_matrix(dg, rng), dims=[g, g]),
+                                       qutip.Qobj(ident_matrix(dg, rng).T + 1, dims=[g, g])))
         St = qutip.tensor(*sups)
         R = qutip.reshuffle(St)
-        d0, d1 = dims[0], dims[1]
+        d0, d1 = int(np.prod(groups[0])), int(np.prod(groups[1]))
         t = St.full().reshape([d0, d0, d1, d1, d0, d0, d1, d1])
         wantR = t.transpose([0, 2, 1, 3, 4, 6, 5, 7]).reshape((d0 * d1) ** 2, (d0 * d1) ** 2)
-        if np.abs(R.full() - wantR).max() > 1e-9:
-            viol.append(("reshuffle", f"reshuffle(tensor of superoperators on dims {dims[:2]}) is not the index regrouping"))
-        if np.abs(qutip.reshuffle(R).full() - St.full()).max() > 1e-9:
-            viol.append(("reshuffle-involution", f"reshuffle twice is not the identity (dims {dims[:2]})"))
-        ops = [qutip.Qobj(ident_matrix(d, rng) + 1j) for d in dims[:2]]
+        if R.full().shape != wantR.shape or np.abs(R.full() - wantR).max() > 1e-9:
+            viol.append(("reshuffle", f"reshuffle(tensor of superoperators on {groups}) is not the index regrouping"))
+        allg = groups[0] + groups[1]
+        if R.dims != [[allg, allg], [allg, allg]]:
+            viol.append(("reshuffle-dims", f"reshuffle(tensor of superoperators on {groups}) labelled {R.dims}"))
+        # going back regroups per *subsystem*: it is the inverse only when every factor is a single subsystem
+        if all(len(g) == 1 for g in groups) and np.abs(qutip.reshuffle(R).full() - St.full()).max() > 1e-9:
+            viol.append(("reshuffle-involution", f"reshuffle twice is not the identity (factors on {groups})"))
+        ops = [qutip.Qobj(ident_matrix(int(np.prod(g)), rng) + 1j, dims=[g, g]) for g in groups]
         lhs = qutip.super_tensor(*[qutip.to_super(o) for o in ops])
         rhs = qutip.to_super(qutip.tensor(*ops))
         if np.abs(lhs.full() - rhs.full()).max() > 1e-8 * (1 + np.abs(rhs.full()).max()):
-            viol.append(("super_tensor", f"super_tensor(to_super(A), to_super(B)) != to_super(tensor(A,B)) for dims {dims[:2]}"))
+            viol.append(("super_tensor", f"super_tensor(to_super(A), to_super(B)) != to_super(tensor(A,B)) for factors on {groups}"))
+        # operator-ket route: reshuffle(tensor of operator-kets) = operator-ket of the tensor
+        kets = [qutip.operator_to_vector(o) for o in ops]
+        lhsk = qutip.reshuffle(qutip.tensor(*kets))
+        rhsk = qutip.operator_to_vector(qutip.tensor(*ops))
+        if lhsk.full().shape != rhsk.full().shape or np.abs(lhsk.full() - rhsk.full()).max() > 1e-9:
+            viol.append(("reshuffle-operket", f"reshuffle(tensor of operator-kets) != operator_to_vector(tensor) for factors on {groups}"))
     return lines, impl, viol
 
 
